@@ -23,13 +23,23 @@ def element(z):
     return el
 
 
+def quant(x, bits=10):
+    """round to `bits` significant bits (keeps the exact rationals handed to Coq small; the values are
+    still arbitrary positive numbers on a grid of ~0.1% relative spacing)"""
+    import math
+    if x == 0.0:
+        return 0.0
+    m, e = math.frexp(x)
+    return math.ldexp(round(m * (1 << bits)) / float(1 << bits), e)
+
+
 def rate_value(tag, key, scale, span, n_e, t_e):
     """An arbitrary positive rate table: a hash of (which rate, n_e, t_e) spread log-uniformly over
     `span` decades.  Any mix-up of charge, element, donor, or of the (n_e, t_e) arguments lands on a
     different value."""
     h = hashlib.sha256(repr((tag, key, float(n_e).hex(), float(t_e).hex())).encode()).hexdigest()
     u = int(h[:13], 16) / float(16 ** 13)
-    return scale * 10.0 ** (span * u)
+    return quant(scale * 10.0 ** (span * u))
 
 
 def make_stub(tag, scale, span, cx_zero=False):
@@ -224,18 +234,18 @@ def run_case(ib, rec, case, rng_mod):
         if rep == "eqmap":
             fv = np.linspace(0.0, 1.1, shape[0])
         else:
-            xs = sorted(rnd(0.0, 2.0) for _ in range(shape[0]))
-            fv = np.array([x + 0.05 * i for i, x in enumerate(xs)])
+            xs = sorted(rng.sample(range(0, 40), shape[0]))
+            fv = np.array([x / 16.0 for x in xs])
         free_variable = fv if rep != "fun1d_scalar" else float(fv[0])
         case["fv"] = [float(v) for v in fv]
     elif rep in ("fun2d", "interp2d"):
-        fx = np.array([0.5 + 0.7 * i + rnd(0, 0.3) for i in range(shape[0])])
-        fy = np.array([-1.0 + 0.9 * i + rnd(0, 0.3) for i in range(shape[1])])
+        fx = np.array([0.5 + 0.75 * i + rng.randint(0, 4) / 16.0 for i in range(shape[0])])
+        fy = np.array([-1.0 + 0.875 * i + rng.randint(0, 4) / 16.0 for i in range(shape[1])])
         free_variable = (fx, fy)
 
     def make_profile(lo, hi, positive=True, allow_zero=False):
         """returns (representation handed to the implementation, flat list of point values)"""
-        vals = np.array([rnd(lo, hi) for _ in range(npts)]).reshape(shape)
+        vals = np.array([quant(rnd(lo, hi)) for _ in range(npts)]).reshape(shape)
         if allow_zero and rng.random() < 0.3:
             vals.flat[rng.randrange(npts)] = 0.0
         if rep == "scalar":
@@ -252,7 +262,7 @@ def run_case(ib, rec, case, rng_mod):
             if kind == "lin":
                 f = _lin1d(vals, fv)
             else:
-                f = _arg1d(rnd(lo, hi), rnd(0.0, (hi - lo) / 4.0))
+                f = _arg1d(quant(rnd(lo, hi)), quant(rnd(0.0, (hi - lo) / 4.0), 6))
             xs = fv if rep != "fun1d_scalar" else [fv[0]]
             return f, [float(f(float(x))) for x in xs]
         if rep in ("fun2d", "interp2d"):
@@ -261,15 +271,15 @@ def run_case(ib, rec, case, rng_mod):
                 from raysect.core.math.function.float import Interpolator2DArray
                 f = Interpolator2DArray(free_variable[0], free_variable[1], vals, 'linear', 'none', 0, 0)
             else:
-                c2 = rnd(0.0, (hi - lo) / 8.0)
-                f = _arg2d(rnd(lo, hi) + c2, rnd(0.0, (hi - lo) / 8.0), c2)     # y >= -1 on the grid
+                c2 = quant(rnd(0.0, (hi - lo) / 8.0), 6)
+                f = _arg2d(quant(rnd(lo, hi)) + c2, quant(rnd(0.0, (hi - lo) / 8.0), 6), c2)     # y >= -1 on the grid
             return f, [float(f(float(x), float(y))) for x in free_variable[0] for y in free_variable[1]]
         raise AssertionError(rep)
 
     ne_rep, ne_pts = make_profile(0.5 * base, 2.0 * base)
     te_rep, te_pts = make_profile(1.0, 1000.0)
     if rep == "mixed1d" and not isinstance(ne_rep, np.ndarray) and not isinstance(te_rep, np.ndarray):
-        te_arr = np.array([rnd(1.0, 1000.0) for _ in range(npts)])
+        te_arr = np.array([quant(rnd(1.0, 1000.0)) for _ in range(npts)])
         te_rep, te_pts = te_arr, [float(v) for v in te_arr]
     nd_rep, nd_pts = None, [0.0] * npts
     if case["donor_mode"] == "donor":
@@ -283,7 +293,7 @@ def run_case(ib, rec, case, rng_mod):
     for s in range(nsp):
         zs = rng.randint(1, 6)
         amp = (2.0 if case["infeasible"] else 0.2) * base / (nsp * zs)
-        arr = np.array([[rnd(0, amp) for _ in range(npts)] for _ in range(zs + 1)]).reshape((zs + 1,) + tuple(shape))
+        arr = np.array([[quant(rnd(0, amp)) for _ in range(npts)] for _ in range(zs + 1)]).reshape((zs + 1,) + tuple(shape))
         if rep in ("fun1d", "interp1d", "eqmap") and rng.random() < 0.5 and len(fv) >= 2:
             d = {c: _lin1d(arr[c], fv) for c in range(zs + 1)}
             species_reps.append(d)
